@@ -115,7 +115,10 @@ def _cause(eng, p, x, T, U, tv, uv, pairs):
                     if ev[3][1] == K and ev[3][2] == th:
                         return "signatures meet the %s root's keys/threshold" % who
     # an implicit error: explained iff some clause is not (yet) established on this path
+    from . import cond_roots
+
+    about = cond_roots(x)
     for X, who in ((T, "trusted"), (U, "new")):
-        if not st.holds(("ok", CallT(CHECKER, [X]))):
+        if not st.holds(("ok", CallT(CHECKER, [X]))) and (not about or X in about):
             return "well-formedness of the %s root (implicit error)" % who
     return None
